@@ -628,7 +628,15 @@ def struct_unpack(bits):
     return _st.unpack('>d', _st.pack('>Q', bits))[0]
 
 
+def run_C11(res, tier, seed, t_end, bad):
+    import blocking as Bl
+    Bl.run_sched_campaign(res, tier, seed, t_end, budget(tier, 40, 1200), 70)
+    if not res.findings:
+        Bl.real_threads_smoke(res, tier, seed, t_end)
+
+
 RUNNERS = {
+    'C11': run_C11,
     'C01': generic('C01', Cp.plan_single(['str', 'key', 'ttl'], 60, select=0.03), Cp.plan_single(['str', 'key', 'ttl'], 80, select=0.03), 60, 1200),
     'C02': generic('C02', Cp.plan_single(['list', 'hash', 'set', 'sort', 'key'], 60), Cp.plan_single(['list', 'hash', 'set', 'sort', 'key'], 80), 60, 1200),
     'C03': generic('C03', Cp.plan_single(['zset', 'zset', 'set', 'key'], 60), Cp.plan_single(['zset', 'zset', 'set', 'key'], 80), 60, 1200, OBSERVERS['C03']),
